@@ -35,7 +35,6 @@ func NewServer(parse ParseFn, options ...OptionFn) (*Server, error) {
 		parse:      parse,
 		logger:     slog.Default(),
 		closer:     make(chan struct{}),
-		types:      pgtype.NewMap(),
 		Statements: DefaultStatementCacheFn,
 		Portals:    DefaultPortalCacheFn,
 		Session:    func(ctx context.Context) (context.Context, error) { return ctx, nil },
@@ -56,7 +55,7 @@ type Server struct {
 	closing         atomic.Bool
 	wg              sync.WaitGroup
 	logger          *slog.Logger
-	types           *pgtype.Map
+	types           []func(*pgtype.Map)
 	Auth            AuthStrategy
 	BufferedMsgSize int
 	Parameters      Parameters
@@ -122,8 +121,20 @@ func (srv *Server) Serve(listener net.Listener) error {
 	}
 }
 
+// newTypeMap constructs the type map of a single connection. A [pgtype.Map]
+// memoises its encode and scan plans on use and is therefore not safe to be
+// shared between the goroutines serving different connections.
+func (srv *Server) newTypeMap() *pgtype.Map {
+	types := pgtype.NewMap()
+	for _, extend := range srv.types {
+		extend(types)
+	}
+
+	return types
+}
+
 func (srv *Server) serve(ctx context.Context, conn net.Conn) error {
-	ctx = setTypeInfo(ctx, srv.types)
+	ctx = setTypeInfo(ctx, srv.newTypeMap())
 	ctx = setRemoteAddress(ctx, conn.RemoteAddr())
 	defer conn.Close()
 
